@@ -374,7 +374,11 @@ class ImplViews(ImplEq):
     def cmd_dict(self, ts):
         d = self.instance.to_dict()
         d2 = _json.loads(_json.dumps(d))
-        back = jsl.JobShopInstance.from_matrices(**d2)
+        try:
+            back = jsl.JobShopInstance.from_matrices(**d2)
+        except Exception as e:  # pylint: disable=broad-except
+            self.last_roundtrip = None
+            return f"raise {type(e).__name__}"
         self.last_roundtrip = (self.instance, back, d)
         return fmt_instance(back)
 
@@ -562,16 +566,35 @@ def fmt_graph(g) -> str:
     return f"nodes {nodes} | removed {removed} | edges {edges}"
 
 
+def graph_integrity(g) -> str:
+    """Self-consistency of a JobShopGraph: ids = positions, the networkx node attribute and nodes_by_type agree."""
+    ids = [n.node_id for n in g.nodes]
+    attr = sorted((k, d["node"].node_id if "node" in d else None) for k, d in g.graph.nodes(data=True))
+    by_type = sorted((t.name, sorted(n.node_id for n in ns)) for t, ns in g.nodes_by_type.items() if ns)
+    return f"ids {ids} attr {attr} by_type {by_type}"
+
+
 class ImplGraph(ImplFeat):
-    def cmd_graph(self, ts):
-        g = BUILDERS[ts[0]](self.instance)
+    # graphs built earlier in this process with what they looked like when they were built: building another graph
+    # must not change them (shared mutable state between graphs)
+    GRAPH_LOG: list = []
+
+    def cmd_new(self, ts):
+        ImplGraph.GRAPH_LOG = []          # a scenario is self-contained, so that its replay reproduces it
+        return super().cmd_new(ts)
+
+    def _log_graph(self, g, what):
         self.last_graph = g
-        return fmt_graph(g)
+        out = fmt_graph(g)
+        ImplGraph.GRAPH_LOG.append((g, out, graph_integrity(g), what))
+        del ImplGraph.GRAPH_LOG[:-12]
+        return out
+
+    def cmd_graph(self, ts):
+        return self._log_graph(BUILDERS[ts[0]](self.instance), ts[0])
 
     def cmd_solved(self, ts):
-        g = _graphs.build_solved_disjunctive_graph(self.dispatcher.schedule)
-        self.last_graph = g
-        return fmt_graph(g)
+        return self._log_graph(_graphs.build_solved_disjunctive_graph(self.dispatcher.schedule), "solved")
 
     def cmd_fres(self, ts):
         g = BUILDERS[ts[0]](self.instance)
